@@ -924,6 +924,44 @@ class PyCdlib:
 
         return (name.decode('utf-8').encode('utf-8'), parent)
 
+    def _check_joliet_destination(self, joliet_path):
+        # type: (bytes) -> None
+        """
+        An internal method to check that a new entry can be added at the given
+        Joliet path: the parent has to exist and be a directory, and the name
+        has to be legal and must not be present in the parent yet.  This raises
+        what adding the entry would raise, but it never changes anything.
+
+        Parameters:
+         joliet_path - The absolute Joliet path of the entry to be added.
+        Returns:
+         Nothing.
+        """
+        (joliet_name, joliet_parent) = self._joliet_name_and_parent_from_path(joliet_path)
+        joliet_parent.check_new_child(joliet_name)
+
+    def _check_udf_destination(self, udf_path, isdir):
+        # type: (bytes, bool) -> None
+        """
+        An internal method to check that a new entry can be added at the given
+        UDF path: the parent has to exist and be a directory, and the name has
+        to fit and must not be present in the parent yet.  This raises what
+        adding the entry would raise, but it never changes anything.
+
+        Parameters:
+         udf_path - The absolute UDF path of the entry to be added.
+         isdir - Whether the entry to be added is a directory.
+        Returns:
+         Nothing.
+        """
+        if self.udf_root is None:
+            raise pycdlibexception.PyCdlibInvalidInput('Can only specify a UDF path for a UDF ISO')
+
+        (udf_name, udf_parent) = self._udf_name_and_parent_from_path(udf_path)
+        file_ident = udfmod.UDFFileIdentifierDescriptor()
+        file_ident.new(isdir, False, udf_name, udf_parent)
+        udf_parent.check_file_ident_desc(file_ident)
+
     def _set_rock_ridge(self, rr):
         # type: (str) -> None
         """
@@ -3356,13 +3394,12 @@ class PyCdlib:
 
         # The entries are added one namespace after the other.  Resolve the
         # Joliet and UDF destinations up front, so that a name or a parent that
-        # is refused there is reported while nothing has been added yet.
+        # is refused there (a duplicate name included) is reported while
+        # nothing has been added yet.
         if joliet_path:
-            self._joliet_name_and_parent_from_path(self._normalize_joliet_path(joliet_path))
+            self._check_joliet_destination(self._normalize_joliet_path(joliet_path))
         if udf_path:
-            if self.udf_root is None:
-                raise pycdlibexception.PyCdlibInvalidInput('Can only specify a UDF path for a UDF ISO')
-            self._udf_name_and_parent_from_path(utils.normpath(udf_path))
+            self._check_udf_destination(utils.normpath(udf_path), False)
 
         left = length
         offset = 0
